@@ -11,6 +11,8 @@ OPTION_SETS = [
     {"replace_parameter_expressions": True},
     {"detect_aliases": True, "expand_vectors": True},
     {"resolve_parameter_values": True},
+    {"eliminate_constant_assignments": True},
+    {"replace_parameter_values": True},
 ]
 
 
@@ -50,6 +52,16 @@ def gen_model(rng, small=False):
             else:
                 v["attrs"]["start"] = num(round(rng.uniform(-3, 3), 1)) if rng.random() < 0.5 else num(rng.randint(0, 5))
                 tags.add("attr:literal")
+    # a scalar declared after the arrays, and an array itself, with parameter-dependent attributes
+    if rng.random() < 0.5 and not product_only:
+        g.decl("xlate", attrs={"max": ("bin", "+", ("bin", "*", num(3), var(p)), num(1)), "min": ("neg", var(p))})
+        m["eqs"].append(("eq", var("xlate"), ("bin", "+", var(g.scalars[0]), num(1))))
+        tags.add("attr:on-scalar-declared-after-arrays")
+    if rng.random() < 0.3 and g.vectors and not product_only:
+        for v in m["vars"]:
+            if v["name"] == g.vectors[0]:
+                v["attrs"]["max"] = ("bin", "*", num(4), var(p))
+                tags.add("attr:parameter-dependent-on-array")
     # alias equations
     for i in range(rng.randint(0, 2)):
         nm = "al%d" % (i + 1)
@@ -58,6 +70,13 @@ def gen_model(rng, small=False):
         g.decl(nm, attrs={"max": num(rng.randint(5, 20))} if rng.random() < 0.5 else None)
         m["eqs"].append(("eq", var(nm), var(tgt) if sign == 1 else ("neg", var(tgt))))
         tags.add("alias-equation:" + ("positive" if sign == 1 else "negative"))
+    if rng.random() < 0.4:
+        # a constant assignment: with eliminate_constant_assignments the variable becomes a model constant whose
+        # value is a constant expression node, not a number
+        g.decl("kc1")
+        v = round(rng.uniform(1, 9), 1)
+        m["eqs"].append(("eq", var("kc1"), num(v)))
+        tags.add("constant-assignment-equation")
     if rng.random() < 0.4:
         g.decl("sp", "String", prefixes=["parameter"], value=("str", "mode%d" % rng.randint(0, 9)))
         tags.add("string-parameter")
